@@ -22,6 +22,8 @@ type Drv struct {
 	CancelAny bool // an extra thread cancels the run at whatever point it is scheduled
 	held      []core.Ammo
 
+	IDOf       func(a core.Ammo) (uint64, bool)
+	IDs        []uint64
 	Items      []any // extracted records in delivery order
 	ByConsumer [][]any
 	RunErr     error
@@ -88,6 +90,11 @@ func (d *Drv) Start(ctx context.Context, cancel func()) {
 				}
 				if d.Cancelled {
 					d.StepsAfterCancel++
+				}
+				if d.IDOf != nil {
+					if id, ok := d.IDOf(a); ok {
+						d.IDs = append(d.IDs, id)
+					}
 				}
 				var rec any
 				if d.Deferred {
